@@ -160,10 +160,9 @@ func sameActions(a, b [][]strategy.Action) (bool, string) {
 // runStratOutcome runs the strategy of the case through strategy.ComputeWithOutcome; output 0 are
 // the actions (as numbers, forwarded by a task of the harness), output 1 the outcomes.
 func runStratOutcome(c *Case, o PipeOpts) *PipeResult[float64] {
-	s := c.strat()
 	snaps := genSnapshots(c.Lens[0], c.Shape, c.DataSeed, epoch)
 	return runPipe(o, [][]*asset.Snapshot{snaps}, func(in []<-chan *asset.Snapshot) []<-chan float64 {
-		acts, outs := strategy.ComputeWithOutcome(s, in[0])
+		acts, outs := strategy.ComputeWithOutcome(c.strat(), in[0])
 		conv := make(chan float64)
 		simrt.GoKind("cons", func() {
 			for {
